@@ -2,8 +2,10 @@ package rules
 
 import (
 	"go/ast"
+	"go/constant"
 	"go/token"
 	"go/types"
+	"sort"
 	"strings"
 
 	"golang.org/x/tools/go/packages"
@@ -21,7 +23,7 @@ func isXARes(w *core.World, f *types.Func, name string) bool {
 }
 
 func checkC17(r *core.Run) {
-	r.Explain = "Decided statically: (C17.order) in the XA connection's BeginTx the branch registration dominates (through its nil-error edge) the construction of the branch identifier, which dominates XAResource.Start; failure edges return an error; (C17.id) every xid argument of XAResource.Start/End/XAPrepare/Commit/Rollback is the String() of an identifier built by XaIdBuild from the global xid and the branch id (the connection's identifier field is only ever assigned such a value; phase two builds it with the same function from the request's Xid and BranchId); (C17.legal) in phase one End precedes XAPrepare through its nil-error edge, XAResource.Commit is reachable only from the phase-two BranchCommit, and the driver.Tx handed to the application ends and prepares the branch on Commit; (C17.surface) every failure of end / timeout check / prepare reaches the caller as a non-nil error, also through the implicit-transaction wrapper; (C17.status) phase-two success constants only with a nil error; (C17.nil) the nil target stored in Tx for XA mode is never dereferenced from an XA path. NOT decided: the database's own XA state machine; phase two arriving on another process."
+	r.Explain = "Decided statically: (C17.reset) every boolean state field of the XA connection (and of the embedded Conn) that some method raises to true is lowered again by a function the per-branch life cycle reaches (BeginTx, Commit, Rollback, ResetSession) — a pooled connection is reused without Close, so a flag only lowered in Close/CloseForce stays raised for every later branch and, when it guards XA END / XA ROLLBACK, leaves those branches active; (C17.order) in the XA connection's BeginTx the branch registration dominates (through its nil-error edge) the construction of the branch identifier, which dominates XAResource.Start; failure edges return an error; (C17.id) every xid argument of XAResource.Start/End/XAPrepare/Commit/Rollback is the String() of an identifier built by XaIdBuild from the global xid and the branch id (the connection's identifier field is only ever assigned such a value; phase two builds it with the same function from the request's Xid and BranchId); (C17.legal) in phase one End precedes XAPrepare through its nil-error edge, XAResource.Commit is reachable only from the phase-two BranchCommit, and the driver.Tx handed to the application ends and prepares the branch on Commit; (C17.surface) every failure of end / timeout check / prepare reaches the caller as a non-nil error, also through the implicit-transaction wrapper; (C17.status) phase-two success constants only with a nil error; (C17.nil) the nil target stored in Tx for XA mode is never dereferenced from an XA path. NOT decided: the database's own XA state machine; phase two arriving on another process."
 	r.Trusted = []string{"go/types, go/cfg", "XAResource implementations issue the XA statement named by the method"}
 	w := r.W
 	xc := w.NamedType("pkg/datasource/sql", "XAConn")
@@ -268,6 +270,8 @@ func checkC17(r *core.Run) {
 	c17Status(r, mgr)
 	// ---- C17.nil
 	c17Nil(r, xc, txT)
+	c17Reset(r, xc)
+	r.Floor("C17.reset", 2)
 	r.Floor("C17.order", 3)
 	r.Floor("C17.id", 8)
 	r.Floor("C17.legal", 3)
@@ -461,5 +465,142 @@ func c17Nil(r *core.Run, xc, txT *types.Named) {
 	}
 	if n == 0 {
 		r.OK("C17.nil", "XA paths never dereference the nil Tx target", "", "every method of sql.Tx that uses its target is nil-guarded or unreachable from XAConn")
+	}
+}
+
+// c17ResetExempt: flags whose life deliberately spans more than one branch life cycle, with the reason.
+var c17ResetExempt = map[string]string{
+	"XAConn.isConnKept": "the connection is held from phase one to phase two on purpose; lowered by releaseIfNecessary when the coordinator's XA COMMIT / XA ROLLBACK terminates the branch",
+}
+
+// c17Reset: boolean state fields raised by a method are lowered within the per-branch life cycle.
+func c17Reset(r *core.Run, xc *types.Named) {
+	w := r.W
+	if xc == nil {
+		return
+	}
+	owners := []*types.Named{xc}
+	if st, ok := xc.Underlying().(*types.Struct); ok {
+		for i := 0; i < st.NumFields(); i++ {
+			if f := st.Field(i); f.Embedded() {
+				t := f.Type()
+				if p, ok := t.(*types.Pointer); ok {
+					t = p.Elem()
+				}
+				if n, ok := t.(*types.Named); ok && n.Obj().Pkg() == xc.Obj().Pkg() {
+					owners = append(owners, n)
+				}
+			}
+		}
+	}
+	// life-cycle roots: the methods database/sql drives for every transaction on a pooled connection
+	var roots []*core.FuncInfo
+	for _, o := range owners {
+		for _, name := range []string{"BeginTx", "Commit", "Rollback", "ResetSession"} {
+			if m := methodInfo(w, o, name); m != nil {
+				roots = append(roots, m)
+			}
+		}
+	}
+	if len(roots) < 3 {
+		r.Anchor("C17.reset", nil, "BeginTx/Commit/Rollback/ResetSession of the XA connection")
+		return
+	}
+	cycle := map[*core.FuncInfo]bool{}
+	for _, f := range reachFrom(w, roots, core.Module+"/pkg/datasource/sql") {
+		cycle[f] = true
+	}
+	for _, f := range roots {
+		cycle[f] = true
+	}
+	type use struct{ raised, lowered []string }
+	uses := map[*types.Var]*use{}
+	lowerIn := map[*types.Var]bool{}
+	for _, f := range w.SortedFuncs() {
+		if w.IsTestFile(f.Decl.Pos()) || f.Decl.Body == nil || f.Pkg.PkgPath != xc.Obj().Pkg().Path() {
+			continue
+		}
+		info := f.Pkg.TypesInfo
+		ast.Inspect(f.Decl.Body, func(n ast.Node) bool {
+			as, ok := n.(*ast.AssignStmt)
+			if !ok || len(as.Lhs) != len(as.Rhs) {
+				return true
+			}
+			for i, l := range as.Lhs {
+				sel, ok := ast.Unparen(l).(*ast.SelectorExpr)
+				if !ok {
+					continue
+				}
+				fv, ok := info.Uses[sel.Sel].(*types.Var)
+				if !ok || !fv.IsField() {
+					continue
+				}
+				if b, ok := fv.Type().Underlying().(*types.Basic); !ok || b.Kind() != types.Bool {
+					continue
+				}
+				owned := false
+				for _, o := range owners {
+					if st, ok := o.Underlying().(*types.Struct); ok {
+						for j := 0; j < st.NumFields(); j++ {
+							if st.Field(j) == fv {
+								owned = true
+							}
+						}
+					}
+				}
+				if !owned {
+					continue
+				}
+				u := uses[fv]
+				if u == nil {
+					u = &use{}
+					uses[fv] = u
+				}
+				v := core.ConstVal(info, as.Rhs[i])
+				at := core.ShortKey(f.Obj)
+				if v != nil && v.Kind() == constant.Bool && !constant.BoolVal(v) {
+					u.lowered = append(u.lowered, at)
+					if cycle[f] {
+						lowerIn[fv] = true
+					}
+				} else {
+					u.raised = append(u.raised, at)
+				}
+			}
+			return true
+		})
+	}
+	ownerOf := func(fv *types.Var) string {
+		for _, o := range owners {
+			if st, ok := o.Underlying().(*types.Struct); ok {
+				for j := 0; j < st.NumFields(); j++ {
+					if st.Field(j) == fv {
+						return o.Obj().Name()
+					}
+				}
+			}
+		}
+		return "?"
+	}
+	var fields []*types.Var
+	for fv := range uses {
+		fields = append(fields, fv)
+	}
+	sort.Slice(fields, func(i, j int) bool { return fields[i].Name() < fields[j].Name() })
+	for _, fv := range fields {
+		u := uses[fv]
+		name := ownerOf(fv) + "." + fv.Name()
+		r.Sites++
+		key := "pkg/datasource/sql." + name + " raised flag is lowered within the branch life cycle"
+		if len(u.raised) == 0 {
+			r.OK("C17.reset", key, w.Pos(fv.Pos()), "never raised")
+			continue
+		}
+		if why, ok := c17ResetExempt[name]; ok {
+			r.OK("C17.reset", key, w.Pos(fv.Pos()), "exempt: "+why)
+			continue
+		}
+		r.Check(lowerIn[fv], "C17.reset", key, w.Pos(fv.Pos()), "lowered by a function BeginTx/Commit/Rollback/ResetSession reach",
+			"the flag is raised in "+strings.Join(u.raised, ", ")+" but lowered only in ["+strings.Join(u.lowered, ", ")+"], none of which the per-branch life cycle (BeginTx, Commit, Rollback, ResetSession) reaches: a pooled connection is reused without Close, so the flag stays raised for every later branch on it")
 	}
 }
